@@ -1,6 +1,9 @@
 import Driver.Util
 import Gen.Kernels
 import VecModel.Model.BPE
+import VecModel.Model.Distances
+import VecModel.Model.Ngram
+import VecModel.Model.Window
 open Lean VecModel
 namespace Driver.Twin
 
@@ -141,6 +144,72 @@ def handle (op : String) (j : Json) : Option (R Json) :=
     pure <| Json.mkObj [("cases", toJson n), ("ok", toJson oks), ("memory_errors", toJson nOob),
       ("other_errors", toJson nOther), ("memory_error_samples", Json.arr oob.toArray),
       ("other_error_samples", Json.arr other.toArray)]
+  | "twin.sparse_exhaustive" => some do
+    -- regenerated sparse_sum / sparse_diff / sparse_mul vs the hand model (Dist.sparseSum …), every pair of
+    -- sorted duplicate-free index lists over {0..k-1} with data from a small alphabet
+    let k ← getNat j "k"
+    let alpha : List Py.Val := (List.range k).map fun i => Py.Val.int (i : Nat)
+    let subs := (alpha.foldr (fun x acc => acc ++ acc.map (x :: ·)) [[]])
+    let natOf : Py.Val → Nat := fun v => match v with | .int i => i.toNat | _ => 0
+    let dataFor : List Py.Val → List (List Rat) := fun idx =>
+      -- two data patterns per index list: all ones, and alternating 2, -1 (creates zeros in sums)
+      [idx.map (fun _ => (1 : Rat)), (List.range idx.length).map fun t => if t % 2 == 0 then (2 : Rat) else (-1 : Rat)]
+    let mut checked := 0
+    let mut bad : List Json := []
+    for i1 in subs do
+      for i2 in subs do
+        for d1 in dataFor i1 do
+          for d2 in dataFor i2 do
+            for (fn, model) in [("sparse_sum", Dist.sparseSum), ("sparse_diff", Dist.sparseDiff), ("sparse_mul", Dist.sparseMul)] do
+              checked := checked + 1
+              let m := model (i1.map natOf) d1 (i2.map natOf) d2
+              let t := Py.callFn Gen.prog fn [.list i1, .list (d1.map Py.Val.rat), .list i2, .list (d2.map Py.Val.rat)]
+              let same := match m, t with
+                | .ok mv, .ok (.tuple [.list ti, .list td], _) =>
+                  ti == mv.map (fun p => Py.Val.int (p.1 : Nat)) && td == mv.map (fun p => Py.Val.rat p.2)
+                | .error _, .error _ => true
+                | _, _ => false
+              if !same && bad.length < 4 then
+                bad := bad ++ [Json.mkObj [("fn", Json.str fn), ("ind1", Json.arr (i1.map ofVal).toArray), ("ind2", Json.arr (i2.map ofVal).toArray),
+                  ("data1", rats d1), ("data2", rats d2),
+                  ("twin", match t with | .ok (v, _) => ofVal v | .error e => Json.str (toString e)),
+                  ("model", match m with | .ok mv => Json.arr (mv.map fun p => Json.arr #[toJson p.1, ratJson p.2]).toArray | .error e => Json.str (toString e))]]
+    pure <| Json.mkObj [("checked", toJson checked), ("disagreements", Json.arr bad.toArray)]
+  | "twin.ngrams_exhaustive" => some do
+    let n ← getNat j "n"
+    let mut checked := 0
+    let mut bad : List Json := []
+    for s in allLists [1, 2] n do
+      for size in [1, 2, 3] do
+        for (bname, beh) in [("exact", Ngram.Behaviour.exact), ("subgrams", Ngram.Behaviour.subgrams)] do
+          checked := checked + 1
+          let m := Ngram.ngramsOf s size beh
+          let t := Py.callFn Gen.prog "ngrams_of" [.list (s.map .int), .int size, .str bname]
+          let same := match t with
+            | .ok (.list gs, _) => gs == m.map (fun g => Py.Val.list (g.map .int))
+            | _ => false
+          if !same && bad.length < 4 then
+            bad := bad ++ [Json.mkObj [("s", ints s), ("n", toJson size), ("beh", Json.str bname),
+              ("twin", match t with | .ok (v, _) => ofVal v | .error e => Json.str (toString e)), ("model", intss m)]]
+    pure <| Json.mkObj [("checked", toJson checked), ("disagreements", Json.arr bad.toArray)]
+  | "twin.window_exhaustive" => some do
+    let n ← getNat j "n"
+    let mut checked := 0
+    let mut bad : List Json := []
+    for s in allLists [1, 2] n do
+      for r in [0, 1, 2, 3, 7] do
+        for i in List.range (s.length + 1) do
+          for rev in [true, false] do
+            checked := checked + 1
+            let m := Window.windowAt s r i rev
+            let t := Py.callFn Gen.prog "window_at_index" [.list (s.map .int), .int r, .int i, .bool rev]
+            let same := match t with
+              | .ok (.list w, _) => w == m.map Py.Val.int
+              | _ => false
+            if !same && bad.length < 4 then
+              bad := bad ++ [Json.mkObj [("s", ints s), ("r", toJson r), ("i", toJson i), ("rev", toJson rev),
+                ("twin", match t with | .ok (v, _) => ofVal v | .error e => Json.str (toString e)), ("model", ints m)]]
+    pure <| Json.mkObj [("checked", toJson checked), ("disagreements", Json.arr bad.toArray)]
   | "twin.bpe_exhaustive" => some do
     -- regenerated contract_pair vs hand model, every array over {1,2,3} up to length n, pairs over {1,2}
     let n ← getNat j "n"
